@@ -138,7 +138,8 @@ func checkNocopy(c NocopyCase, cv *cov) (v *evid.Violation) {
 				nearThreshold = true
 			}
 		}
-		B := make([]byte, bl, bl+c.SpareCap)
+		// the struct may be embedded in a larger message: the buffer handed in can be longer than its own length
+		B := make([]byte, bl+c.Slack, bl+c.Slack+c.SpareCap)
 		rec := &directRec{}
 		var w thrift.NocopyWriter
 		if !c.NilWriter {
@@ -179,6 +180,7 @@ func checkNocopy(c NocopyCase, cv *cov) (v *evid.Violation) {
 				v = evid.Failf("%s: spliced stream has %d bytes, advertised %d", kindNames[sc.Kind], len(stream), bl)
 				return
 			}
+			stream = stream[:bl]
 			r := ref.Walk(stream, ref.STRUCT)
 			if r.Class != ref.OK || r.N != bl {
 				v = evid.Failf("%s: spliced stream is not one well-formed struct of %d bytes: %s", kindNames[sc.Kind], bl, refDesc(r))
@@ -210,10 +212,21 @@ func checkNocopy(c NocopyCase, cv *cov) (v *evid.Violation) {
 		// second opinion: the repository's own test double
 		if v == nil {
 			nw := &netpoll.NetpollDirectWriter{}
-			b2 := nw.Malloc(bl)
-			px.FastWriteNocopy(b2, nw)
-			if len(m.extra) <= 1 && !bytes.Equal(nw.Bytes(), want) {
+			tail := "small tail"
+			b2 := nw.Malloc(bl + 4 + len(tail))
+			n2 := px.FastWriteNocopy(b2, nw)
+			first := nw.Bytes()
+			if len(m.extra) <= 1 && !bytes.Equal(first[:bl], want) {
 				v = evid.Failf("%s: netpoll test double reassembles a stream different from the copying path", kindNames[sc.Kind])
+				return
+			}
+			// a further small (copied) value behind the struct, then the splice is asked for again
+			n2 += thrift.Binary.WriteStringNocopy(b2[n2:], nw, tail)
+			second := nw.Bytes()
+			wantTail := append(ref.Put32(nil, uint32(len(tail))), tail...)
+			if len(second) != bl+4+len(tail) || !bytes.Equal(second[bl:], wantTail) || (len(m.extra) <= 1 && !bytes.Equal(second[:bl], want)) {
+				v = evid.Failf("%s: netpoll test double: the splice requested again after a further small value was written does not contain that value", kindNames[sc.Kind])
+				return
 			}
 		}
 	}
@@ -288,6 +301,7 @@ func genNocopyCase(t *rapid.T) NocopyCase {
 			}
 		}
 		c.Struct = &sc
+		c.Slack = rapid.SampledFrom([]int{0, 0, 1, 7, 100, 5000}).Draw(t, "structSlack")
 		return c
 	}
 	n := rapid.IntRange(1, 6).Draw(t, "nvals")
